@@ -31,7 +31,8 @@ RULE = ("encoder: every string over {00,01,FF} up to length L (L=9 quick, 13 tho
         "distinct inputs containing at least one zero byte"
         ". Rounds 6-7: the result of an earlier expand call must be unchanged after later calls; compress / expand from four threads at once against their single-threaded results"
         ". Round 8: the encoder given a bytearray (what serialize() passes) - the result must survive the caller reusing that buffer and the argument must be "
-        "unchanged; peak allocation (tracemalloc) of one expand call on decompression bombs up to 65000 bytes must stay under 8x(cap+256) bytes whether it refuses or not")
+        "unchanged; peak allocation (tracemalloc) of one expand call on decompression bombs up to 65000 bytes must stay under 8x(cap+256) bytes whether it refuses or not"
+        ". Round 9: every string over {00,01,FF} up to length 4 in six byte-string types (bytes, bytearray, memoryview, JankStringyBytes, RawBytes, a plain subclass) through both directions")
 ASSUMPTIONS = [
     "reference semantics: 00 N = N zeros, each extra 00 before the count adds 256, an unterminated run of k zero "
     "bytes at the end is 1+256(k-1) zeros (matches the viewer's decoder)",
@@ -42,7 +43,7 @@ MUST_REACH = {
     "enc_cases": 1, "dec_cases": 1, "dec_refused": 1, "dec_wrap_inputs": 1, "dec_trailing_zero_inputs": 1,
     "enc_runs_over_255": 1, "header_peeks": 1, "dec_between_cap": 1, "enc_repeat_after_mutation": 100, "enc_at_size_boundary": 12,
     "dec_earlier_results_still_intact": 1000, "coder_calls_from_concurrent_threads": 5000,
-    "enc_buffer_arguments": 100, "enc_buffer_arguments_without_zero": 40, "dec_allocation_measured_on_refusal": 6,
+    "enc_buffer_arguments": 100, "coder_argument_types_checked": 300, "enc_buffer_arguments_without_zero": 40, "dec_allocation_measured_on_refusal": 6,
 }
 
 
@@ -143,6 +144,47 @@ def check_encoder_buffer_argument(ctx, s: bytes, rng):
     if at_call != bytes(UDPMessageSerializer.zero_code_compress(s)):
         ctx.violation("encoder-depends-on-argument-type", "a bytearray and the same bytes encode differently",
                       {"input": s[:200], "kind": "encbuf"})
+
+
+def _byte_string_types():
+    from hippolyzer.lib.base.datatypes import JankStringyBytes, RawBytes
+
+    class PlainSubclass(bytes):
+        pass
+    return [("bytes", bytes), ("bytearray", bytearray), ("memoryview", memoryview), ("JankStringyBytes", JankStringyBytes),
+            ("RawBytes", RawBytes), ("bytes-subclass", PlainSubclass)]
+
+
+def check_coder_argument_types(ctx, s: bytes):
+    """'any byte string': what decoded messages hold are bytes subclasses with ideas of their own about truth and equality
+    (a lone NUL is falsy and equals ''), callers also pass bytearrays and memoryviews. The code is a function of the bytes."""
+    want_c = bytes(UDPMessageSerializer.zero_code_compress(bytes(s)))
+    try:
+        want_d = bytes(UDPMessageDeserializer.zero_code_expand(bytes(s)))
+    except ValueError:
+        want_d = None
+    for tname, t in _byte_string_types():
+        ctx.ev()
+        try:
+            got = bytes(UDPMessageSerializer.zero_code_compress(t(s)))
+        except Exception as e:
+            ctx.violation("encoder-raises:" + tname, "zero_code_compress raised on a byte string of another type",
+                          {"input": s, "type": tname, "exc": repr(e)[:200], "kind": "argtype"})
+            continue
+        if got != want_c:
+            ctx.violation("encoder-depends-on-argument-type", "the same bytes encode differently when held in another byte-string type",
+                          {"input": s, "type": tname, "got": got, "want": want_c, "kind": "argtype"})
+            continue
+        if want_d is not None:
+            try:
+                gd = bytes(UDPMessageDeserializer.zero_code_expand(t(s)))
+            except Exception as e:
+                gd = repr(e)[:100]
+            if gd != want_d:
+                ctx.violation("decoder-depends-on-argument-type", "the same bytes decode differently when held in another byte-string type",
+                              {"input": s, "type": tname, "got": gd, "want": want_d, "kind": "argtype"})
+                continue
+        ctx.count("coder_argument_types_checked")
 
 
 def check_decoder_allocation(ctx, d: bytes, tag):
@@ -326,6 +368,14 @@ def run(ctx):
     ctx.flag("exhaustive", True)
     ctx.flag("exhaustive_encoder_alphabet_len", L)
 
+    # 1b. every short string again in every byte-string type callers hold
+    idx = 0
+    for n in range(0, 5):
+        for tup in itertools.product((0, 1, 0xFF), repeat=n):
+            idx += 1
+            if ctx.mine(idx):
+                check_coder_argument_types(ctx, bytes(tup))
+
     # 2. zero runs 0..1100 in four contexts
     for run_len in range(0, 1101):
         if not ctx.mine(run_len):
@@ -422,6 +472,8 @@ def replay(ctx, w):
     kind = w.get("kind")
     if kind == "enc":
         check_encoder(ctx, w["input"], "replay")
+    elif kind == "argtype":
+        check_coder_argument_types(ctx, w["input"])
     elif kind == "encbuf":
         for _ in range(8):
             check_encoder_buffer_argument(ctx, w["input"], ctx.rng)
